@@ -831,3 +831,129 @@ func TestC15Long(t *testing.T) {
 		}
 	})
 }
+
+// checkBigRanges: the range part of the oracle (no re-parse of every node) for a text of any size.
+func checkBigRanges(text []byte) string {
+	out := obs.Parse(text)
+	if !out.OK() {
+		return fmt.Sprintf("generated program of %d bytes rejected: %v %v", len(text), out.Err, out.Panic)
+	}
+	n := len(text)
+	msg := ""
+	count := 0
+	obs.Walk(out.Src.Expression, func(nd formula.Node, parent formula.Node, c obs.Child) {
+		if msg != "" || obs.IsNil(nd) {
+			return
+		}
+		count++
+		if !(0 <= nd.Pos() && nd.Pos() <= nd.End() && nd.End() <= n) {
+			msg = fmt.Sprintf("%T in slot %s has range [%d,%d) outside the text (len %d)", nd, c.Slot, nd.Pos(), nd.End(), n)
+			return
+		}
+		kids, lists := obs.Children(nd)
+		prev := nd.Pos()
+		for _, k := range kids {
+			if obs.IsNil(k.Node) {
+				continue
+			}
+			if k.Node.Pos() < nd.Pos() || k.Node.End() > nd.End() {
+				msg = fmt.Sprintf("child %s [%d,%d) not inside parent %T [%d,%d)", k.Slot, k.Node.Pos(), k.Node.End(), nd, nd.Pos(), nd.End())
+				return
+			}
+			if k.Node.Pos() < prev {
+				msg = fmt.Sprintf("child %s [%d,%d) of %T overlaps or precedes its left sibling (ends %d)", k.Slot, k.Node.Pos(), k.Node.End(), nd, prev)
+				return
+			}
+			prev = k.Node.End()
+		}
+		for _, l := range lists {
+			if !l.Nil && (l.Pos < nd.Pos() || l.End > nd.End() || l.Pos > l.End) {
+				msg = fmt.Sprintf("list %s [%d,%d) not inside %T [%d,%d)", l.Slot, l.Pos, l.End, nd, nd.Pos(), nd.End())
+				return
+			}
+		}
+		// the own text of a sample of nodes
+		if c.Expr && count%997 == 1 && nd.End()-nd.Pos() < 1<<12 {
+			sub := text[nd.Pos():nd.End()]
+			if re := obs.Parse(sub); !re.OK() {
+				msg = fmt.Sprintf("text %q of %T at [%d,%d) does not parse on its own: %v", sub, nd, nd.Pos(), nd.End(), re.Err)
+			} else if obs.Dump(nd) != obs.Dump(re.Src.Expression) {
+				msg = fmt.Sprintf("text %q of %T at [%d,%d) parses on its own to another subtree", sub, nd, nd.Pos(), nd.End())
+			}
+		}
+	})
+	if msg == "" {
+		root := out.Src.Expression
+		if strings.TrimSpace(string(text[root.End():])) != "" || strings.TrimSpace(string(text[:root.Pos()])) != "" {
+			msg = fmt.Sprintf("the root %T covers [%d,%d) of a text of %d bytes that is one expression", root, root.Pos(), root.End(), n)
+		}
+		if eof := out.Src.EndOfFileToken; eof != nil && (eof.Pos() > n || eof.End() != n) {
+			msg = fmt.Sprintf("the end-of-file token is at [%d,%d) in a text of %d bytes", eof.Pos(), eof.End(), n)
+		}
+	}
+	if msg != "" {
+		return fmt.Sprintf("program of %d bytes starting %q: %s", n, text[:min(n, 40)], msg)
+	}
+	return ""
+}
+
+type bigCase struct {
+	Shape string `json:"shape"`
+	Size  int    `json:"size"`
+}
+
+func (c bigCase) text() []byte {
+	n := c.Size
+	switch c.Shape {
+	case "string":
+		return []byte("'" + strings.Repeat("x", n) + "'")
+	case "string-in-call":
+		return []byte("len(\"" + strings.Repeat("é", n/2) + "\") + 1")
+	case "sum":
+		return []byte("a" + strings.Repeat(" + b", n/4))
+	case "list":
+		return []byte("[" + strings.Repeat("a1, ", n/4) + "z]")
+	case "lines":
+		return []byte("f(" + strings.Repeat("x.y,\n", n/5) + "1)")
+	case "number":
+		return []byte("[" + strings.Repeat("9", n) + ", 1]")
+	case "nested":
+		return []byte(strings.Repeat("(", 200) + "a" + strings.Repeat(" * 2", n/4) + strings.Repeat(")", 200))
+	case "blank":
+		return []byte("a +" + strings.Repeat(" ", n) + "b")
+	}
+	return []byte("conditional" + strings.Repeat(" ? 1 : c", n/8))
+}
+
+func init() {
+	h.RegisterReplay("c15-big", func(raw json.RawMessage) string {
+		c, err := h.Decode[bigCase](raw)
+		if err != nil {
+			return "bad replay: " + err.Error()
+		}
+		return checkBigRanges(c.text())
+	})
+}
+
+// TestC15Big: ranges in texts around and beyond 64 KiB.
+func TestC15Big(t *testing.T) {
+	sizes := []int{65000, 65530, 65536, 66000, 70000, 131072 + 9, 300000}
+	shapes := []string{"string", "string-in-call", "sum", "list", "lines", "number", "nested", "blank", "conditional"}
+	run := h.Begin("C15", "big", fmt.Sprintf("enumerated: %d shapes (one long string literal, a long sum / list / argument list over many lines / digit run / conditional ladder, a long run of blanks inside a node) at %d sizes around 2^16 and 2^17 and at 300000 bytes; oracle: every range inside the text, children inside the parent in source order, the root covers the text, the end-of-file token ends it, a sample of nodes re-parses to the same subtree; every case non-trivial", len(shapes), len(sizes)))
+	defer run.End(t)
+	var idx int64
+	for _, sh := range shapes {
+		for _, sz := range sizes {
+			idx++
+			if !h.Mine(idx) || run.NViolations() >= 3 {
+				continue
+			}
+			c := bigCase{Shape: sh, Size: sz}
+			run.Count(true, sh)
+			if msg := checkBigRanges(c.text()); msg != "" {
+				run.Fail("c15-big", c, msg)
+			}
+		}
+	}
+	run.Exhaustive()
+}
